@@ -120,3 +120,20 @@ FAMILIES.append(Family("late_add", gen_late, oplists.run_case, oplists.model_exp
                        lambda case, obs: json.dumps(case["ops"]) if isinstance(obs, dict) and any(any(f) for f in obs.get("fails", {}).values()) else None,
                        imports=["Model.Core", "Model.Prog"], project=oplists.project, describe=oplists.describe,
                        shard=30, coq_shard=60))
+
+
+# ---- registration histories (add / remove / log) with value-equal destination objects: every registration is its own ----
+from props import C12 as _c12
+
+
+def gen_registration(rng, tier):
+    out = []
+    for k in range(70 if tier == "quick" else 1200):
+        out.append({"hist": _c12._gen_history(rng, rng.randrange(4, 50), equal_dests=True, fault=0.3), "equal_dests": True})
+    return out
+
+
+FAMILIES.append(Family("registration", gen_registration, _c12.impl_histories, _c12.model_histories, _c12.model_obs_histories,
+                       _c12.oracle_histories, _c12.nontrivial_histories, imports=["Model.Core", "Model.Prog", "Model.Handover"],
+                       project=_c12.project_histories, shrink=_c12.shrink_histories, describe=_c12.describe_histories,
+                       shard=24, coq_shard=24, case_timeout=30))
